@@ -96,7 +96,7 @@ extern "C" __attribute__((noinline, used)) void c17_thread_entry(long i)
 struct Case {
         int n = 2;
         int fail = 0, yield = 0;
-        int mode = 0; // 0 = burst bytes, 1 = preemption list (run-to-yield otherwise)
+        int mode = 0; // 0 = burst bytes, 1 = preemption list (run-to-yield otherwise), 2 = same, targets are "k-th other live thread"
         std::vector<int> kinds;
         std::vector<uint8_t> bytes;                 // mode 0: (thread choice, burst length) per decision
         std::vector<std::pair<uint32_t, int>> pre;  // mode 1: (global step index, thread to switch to)
@@ -137,6 +137,17 @@ static int pick_next(bool cur_yielded)
         // mode 1: run the current thread until it yields (pause) or finishes, except at the listed preemption points
         for (auto &p : c.pre)
                 if (p.first == g_steps) {
+                        if (c.mode == 2) {
+                                // k-th live thread other than the running one
+                                int k = p.second, t = g_cur;
+                                for (int step = 0; step <= k; step++) {
+                                        int nx = next_alive(t < 0 ? g_n - 1 : t);
+                                        if (nx < 0 || nx == g_cur) break;
+                                        t = nx;
+                                }
+                                if (t >= 0 && t != g_cur && !T[t].finished) return t;
+                                continue;
+                        }
                         int t = p.second % g_n;
                         if (!T[t].finished) return t;
                 }
@@ -253,7 +264,7 @@ static bool run(const Case &c, pbt::Ctx &ctx)
 
         ctx.label("threads=" + std::to_string(c.n));
         ctx.label(c.fail ? "outcome=fail" : "outcome=pass");
-        ctx.label(c.mode ? "mode=preemption-list" : "mode=burst-bytes");
+        ctx.label(c.mode == 2 ? "mode=enumerated<=2-preemptions" : c.mode ? "mode=preemption-list" : "mode=burst-bytes");
         ctx.label("steps", g_steps);
         ctx.nontrivial = g_max_in_check >= 2 || g_spin_before_publish;
         if (g_max_in_check >= 2) ctx.label(">=2 threads inside the check/claim window");
@@ -283,6 +294,46 @@ static bool run(const Case &c, pbt::Ctx &ctx)
         return true;
 }
 
+// ---- complete enumeration of all schedules with at most two preemptions (thorough tier, --opt enum=1)
+struct Combo {
+        int n, fail, yield;
+        std::vector<int> kinds;
+        uint64_t S = 0;      // steps of the preemption-free (run-to-yield) schedule
+        uint64_t count = 0;  // 1 + S*(n-1) + C(S,2)*(n-1)^2
+};
+static std::vector<Combo> g_combos;
+static uint64_t g_enum_total = 0, g_enum_next = 0, g_enum_stride = 1;
+static bool g_enum = false;
+static Case enum_case(uint64_t idx)
+{
+        Case c;
+        c.mode = 2;
+        for (auto &cb : g_combos) {
+                if (idx >= cb.count) { idx -= cb.count; continue; }
+                c.n = cb.n; c.fail = cb.fail; c.yield = cb.yield; c.kinds = cb.kinds;
+                uint64_t m = cb.n - 1;
+                if (idx == 0) return c;
+                idx -= 1;
+                if (idx < cb.S * m) {
+                        c.pre.emplace_back((uint32_t) (idx / m), (int) (idx % m)); // target resolved relative to the running thread in pick_next? -> absolute below
+                        return c;
+                }
+                idx -= cb.S * m;
+                uint64_t tt = idx % (m * m);
+                uint64_t pr = idx / (m * m);
+                // pr -> (p1 < p2)
+                uint64_t p2 = 1;
+                while (p2 * (p2 - 1) / 2 + p2 <= pr) p2++; // largest p2 with C(p2,2) <= pr
+                uint64_t p1 = pr - p2 * (p2 - 1) / 2;
+                c.pre.emplace_back((uint32_t) p1, (int) (tt % m));
+                c.pre.emplace_back((uint32_t) p2, (int) (tt / m));
+                return c;
+        }
+        c.n = 1;
+        c.kinds = { 0 };
+        return c;
+}
+
 int main(int argc, char **argv)
 {
         pbt::Prop<Case> P;
@@ -306,10 +357,45 @@ int main(int argc, char **argv)
                 sa.sa_flags = SA_SIGINFO | SA_ONSTACK;
                 sigemptyset(&sa.sa_mask);
                 sigaction(SIGTRAP, &sa, nullptr);
-                (void) ctx;
+                g_enum = ctx.optnum("enum", 0) != 0;
+                if (g_enum) {
+                        auto add = [&](int n, std::vector<int> kinds, int fail, int yield) {
+                                Combo cb;
+                                cb.n = n; cb.kinds = kinds; cb.fail = fail; cb.yield = yield;
+                                Case probe;
+                                probe.mode = 2; probe.n = n; probe.kinds = kinds; probe.fail = fail; probe.yield = yield;
+                                pbt::Ctx tmp;
+                                run(probe, tmp);
+                                cb.S = g_steps + 8;
+                                uint64_t m = n - 1;
+                                cb.count = 1 + cb.S * m + cb.S * (cb.S - 1) / 2 * m * m;
+                                g_combos.push_back(cb);
+                                g_enum_total += cb.count;
+                        };
+                        for (int fail = 0; fail < 2; fail++)
+                                for (int yield : { 0, 3 }) {
+                                        add(2, { 0, 0 }, fail, yield);
+                                        add(2, { 0, 1 }, fail, yield);
+                                        add(2, { 1, 1 }, fail, yield);
+                                }
+                        for (int fail = 0; fail < 2; fail++) {
+                                add(3, { 0, 0, 0 }, fail, 0);
+                                add(3, { 1, 0, 1 }, fail, 0);
+                        }
+                        g_enum_next = (uint64_t) ctx.optnum("worker", 0);
+                        g_enum_stride = (uint64_t) ctx.optnum("workers", 1);
+                        ctx.notes.push_back("enumeration: " + std::to_string(g_enum_total) + " schedules with <= 2 preemptions over " + std::to_string(g_combos.size()) +
+                                            " (threads, entry kinds, outcome, yield) combinations");
+                }
         };
         P.gen = [](pbt::Ctx &ctx) {
                 using namespace pbt;
+                if (g_enum && g_enum_next < g_enum_total && ctx.optnum("enum_share", 100) > rng<long>(0, 99)) {
+                        Case e = enum_case(g_enum_next);
+                        g_enum_next += g_enum_stride;
+                        ctx.label("enumerated-schedules");
+                        return e;
+                }
                 Case c;
                 c.n = weighted({ 1, 6, 5, 2, 1 }) + 1;
                 c.fail = coin(1, 3);
